@@ -90,7 +90,9 @@ CHECKS["C13"] = dict(
          "validated node by node by TLC (EnsembleTrace.tla): every yielded member must be a behaviour of the picked component's machine and equal its result; the "
          "iteration must end exactly when the model ends; non-generable systems must refuse on both entry points. EnsembleMC model-checks the machine "
          "(IStop, OnlyCompleteMembers, AccumulatesMemberMass, Termination) and TLC checks that it implements spec/FirstCrossing.tla with the non-strict comparison "
-         "(spec/EnsembleRefinesFC.tla); FirstCrossing's theorem is proved unbounded by tlapm in every run and its inductive invariant is discharged symbolically by Apalache (spec/apalache/FirstCrossingApa.tla).",
+         "(spec/EnsembleRefinesFC.tla); FirstCrossing's theorem is proved unbounded by tlapm in every run and its inductive invariant is discharged symbolically by Apalache (spec/apalache/FirstCrossingApa.tla). "
+         "Specification -> code: TLC generates the schedules of the ensemble machine (EnsembleMCH: component picks, decisions and targets of every member; every distinct terminal state, "
+         "simulation mode in the thorough tier), System.generator is stepped through each with a scripted generator and forced targets, and EnsembleTrace judges what it did.",
     design_ref="DESIGN.md 4/C13",
     note="Trusted: TLC, RDKit (reading molecules), the scripted generator. System.generator's rng is passed through the property's fget.",
     technique="TLA+ spec (Ensemble.tla with parametrised INSTANCE Generate); implementation choice trees validated by TLC",
